@@ -17,7 +17,7 @@ import copy
 from ..refs import keys as K
 from ..refs import ec
 from ..seams import entropy, Tape, TapeExhausted
-from ..util import data
+from ..util import data, Rng
 from . import c13_encodings as c13
 
 CURVES = ["p192", "p224", "p256", "p384", "p521", "ed25519", "ed448", "curve25519", "curve448"]
@@ -120,6 +120,10 @@ class Machine(object):
                     f = [["torn", rng.randrange(1, n)]]
                 faults.append(f)
             return {"kind": "import", "fam": fam, "item": i, "other": rng.randrange(len(self.keyfiles[fam])), "faults": faults, "ops": []}
+        if r < 0.78:
+            return {"kind": "near_curve", "seed": rng.randrange(1 << 30), "ops": []}
+        if r < 0.81:
+            return {"kind": "toy", "fam": rng.choice(["RSA", "DSA", "ElGamal"]), "seed": rng.randrange(1 << 30), "ops": []}
         fam = rng.choice(["RSA", "DSA", "ECC", "ECC", "ElGamal"])
         muts = []
         for _ in range(16):
@@ -315,6 +319,138 @@ class Machine(object):
                                 fam, self.c13._label(t, item), seq, "; ".join(bad)),
                             observed="; ".join(bad), expected="ValueError or a key satisfying its invariants")
 
+    def run_near_curve(self, case, ctx):
+        """Points that miss the curve by a *structured* amount: the residual of the curve equation is +-k*2^j.  An
+        on-curve test that compares truncated words, skips a limb or reduces lazily accepts exactly such points."""
+        from Crypto.PublicKey import ECC
+        rng = Rng(case["seed"])
+        names = ["P-192", "P-256", "P-384", "P-521", "Ed25519", "Ed448"]
+        lib = {"P-192": "p192", "P-256": "p256", "P-384": "p384", "P-521": "p521", "Ed25519": "ed25519", "Ed448": "ed448"}
+        for _ in range(24):
+            ctx.step()
+            cn = rng.choice(names)
+            ws = cn in ec.WS
+            c = ec.WS[cn] if ws else ec.ED[cn]
+            p_ = c["p"]
+            G = ec.ws_generator(c) if ws else ec.ed_generator(c)
+            k_ = 2 + rng.randrange(1 << 40)
+            x = (ec.ws_mul(c, k_, G) if ws else ec.ed_mul(c, k_, G))[0]
+            j = rng.choice([0, 1, 8, 16, 24, 25, 26, 31, 32, 33, 48, 51, 56, 63, 64, 65, 96, 128, 160, 192, 224, 255, 256, 320, 384, 447, 448, 512, 520])
+            res = (rng.choice([1, 1, 2, 3, 5, 255, 65537, rng.getrandbits(20) | 1]) << j) % p_
+            if rng.random() < 0.5:
+                res = (-res) % p_
+            if res == 0:
+                continue
+            if ws:
+                rhs = (x * x * x - 3 * x + c["b"] + res) % p_
+                y = ec._sqrt_mod(rhs, p_)
+            else:
+                # a*x^2 + y^2 - 1 - d*x^2*y^2 = res   ->   y^2 = (1 + res - a*x^2) / (1 - d*x^2)
+                den = (1 - c["d"] * x * x) % p_
+                if den == 0:
+                    continue
+                y = ec._sqrt_mod((1 + res - c["a"] * x * x) * pow(den, -1, p_) % p_, p_)
+            if y is None:
+                continue
+            if rng.random() < 0.5:
+                y = p_ - y
+            ctx.fault("mem.near_curve")
+            ctx.state(("near_curve", cn, min(j, 520) // 32))
+            try:
+                k = ECC.construct(curve=lib[cn], point_x=x, point_y=y)
+            except ValueError:
+                ctx.probe("near_curve_point_refused")
+                continue
+            except Exception as e:
+                ctx.violate("construct/ECC/exception:%s" % type(e).__name__, "ECC.construct raised %s for an off-curve point" % type(e).__name__,
+                            observed=repr(e), expected="ValueError")
+            ctx.violate("invariant/ECC.construct/off-curve-point-accepted/%s" % cn,
+                        "ECC.construct(curve=%s) accepted a point whose curve-equation residual is %s%d*2^%d (not on the curve)" % (
+                            cn, "", res if res < 1 << 64 else 0, j),
+                        observed="key accepted (x=%x.., y=%x..)" % (x >> 64, y >> 64), expected="ValueError")
+
+    def run_toy(self, case, ctx):
+        """Adversarially *consistent* tuples: every arithmetic relation between the components holds, but one component
+        that must be prime is a (small or pseudoprime) composite.  Beyond the fault model proper; kept because a
+        consistency check that trusts a short-cut for small numbers is exactly what a single damaged component cannot reveal."""
+        from Crypto.PublicKey import RSA, DSA, ElGamal
+        from math import gcd
+        rng = Rng(case["seed"])
+        fam = case["fam"]
+        ctx.state(("toy", fam))
+        small_primes = [3, 5, 7, 11, 13, 17, 19, 23, 29, 31, 37, 41, 43, 47, 53, 59, 61, 67, 71, 73, 79, 83, 89, 97, 101, 103, 107, 109, 113, 127, 131, 137, 139, 149, 151,
+                        157, 163, 167, 173, 179, 181, 191, 193, 197, 199, 211, 223, 227, 229, 233, 239, 241, 251, 257, 263, 269, 271, 277, 281, 283, 293, 307, 311, 313, 317,
+                        331, 337, 347, 349, 353, 359, 367, 373, 379, 383, 389, 397, 401, 409, 419, 421, 431, 433, 439, 443, 449, 457, 461, 463, 467, 479, 487, 491, 499, 503,
+                        509, 521, 523, 541, 547, 557, 563, 569, 571, 577, 587, 593, 599, 601, 607, 613, 617, 619, 631, 641, 643, 647, 653, 659, 661, 673, 677, 683, 691, 701]
+        pseudo = [341, 561, 645, 1105, 1387, 1729, 1905, 2047, 2465, 2701, 2821, 3277, 4033, 4369, 4371, 4681, 5461, 6601, 7957, 8321, 8481, 8911, 10261, 10585,
+                  11305, 12801, 13741, 13747, 13981, 14491, 15709, 15841, 16705, 18705, 18721, 19951, 23001, 23377, 25761, 29341, 41041, 46657, 52633, 62745, 63973,
+                  75361, 101101, 115921, 126217, 162401, 172081, 188461, 252601, 278545, 294409, 314821, 334153, 340561, 399001, 410041, 449065, 488881, 512461,
+                  3215031751, 3825123056546413051, 318665857834031151167461]
+        for _ in range(12):
+            ctx.step()
+            kind = rng.choice(["small", "small", "pseudo", "square", "big"])
+            if kind == "small":
+                comp = rng.choice(small_primes[:40]) * rng.choice(small_primes[:60])
+            elif kind == "pseudo":
+                comp = rng.choice(pseudo)
+            elif kind == "square":
+                comp = rng.choice(small_primes) ** 2
+            else:
+                comp = K.next_prime(rng.getrandbits(rng.choice([20, 40, 70]))) * K.next_prime(rng.getrandbits(rng.choice([20, 40, 70])))
+            if comp % 2 == 0 or K.is_prime(comp):
+                continue
+            try:
+                if fam == "RSA":
+                    q = rng.choice([x for x in small_primes if comp % x]) if kind != "big" else K.next_prime(rng.getrandbits(50))
+                    n = comp * q
+                    lam = (comp - 1) * (q - 1) // gcd(comp - 1, q - 1)
+                    e = next(x for x in [3, 5, 7, 11, 13, 17, 19, 23, 29, 31, 37, 41, 43, 47, 65537] if gcd(x, lam) == 1 and 1 < x < n and gcd(x, n) == 1)
+                    d = pow(e, -1, lam)
+                    if d <= 1:
+                        d += lam
+                    if d >= n or gcd(d, n) != 1 or gcd(comp, q) != 1:
+                        continue
+                    pq = (comp, q) if rng.random() < 0.5 else (q, comp)
+                    tup = (n, e, d, pq[0], pq[1], pow(pq[0], -1, pq[1]))
+                    what = "RSA.construct(n=%d, e=%d, d=%d, p=%d, q=%d)" % tup[:5]
+                    k = RSA.construct(tup, consistency_check=True)
+                elif fam == "DSA":
+                    qq = comp
+                    m_ = 2
+                    while not K.is_prime(qq * m_ + 1):
+                        m_ += 2 if m_ > 2 else 1
+                        if m_ > 5000:
+                            break
+                    pp = qq * m_ + 1
+                    if not K.is_prime(pp):
+                        continue
+                    g = next((pow(h, (pp - 1) // qq, pp) for h in range(2, 50) if pow(h, (pp - 1) // qq, pp) > 1), None)
+                    if g is None:
+                        continue
+                    x = 1 + rng.randrange(qq - 1)
+                    tup = (pow(g, x, pp), g, pp, qq, x)
+                    what = "DSA.construct(y, g=%d, p=%d, q=%d (composite), x)" % (g, pp, qq)
+                    k = DSA.construct(tup, consistency_check=True)
+                else:
+                    pp = comp
+                    g = next((h for h in range(2, 200) if pow(h, pp - 1, pp) == 1), None)
+                    if g is None:
+                        continue
+                    x = 2 + rng.randrange(max(1, pp - 4))
+                    tup = (pp, g, pow(g, x, pp), x)
+                    what = "ElGamal.construct(p=%d (composite), g=%d, y, x)" % (pp, g)
+                    k = ElGamal.construct(tup)
+            except ValueError:
+                ctx.probe("toy_tuple_refused")
+                continue
+            except Exception as e:
+                ctx.violate("construct/%s/exception:%s" % (fam, type(e).__name__), "%s raised %s" % (what, type(e).__name__), observed=repr(e), expected="ValueError")
+            ctx.fault("mem.consistent_composite")
+            bad = self._check_key(fam, k)
+            ctx.violate("invariant/%s.construct/composite-accepted" % fam,
+                        "%s: every arithmetic relation holds but a component that must be prime is composite; the key was accepted (%s)" % (what, "; ".join(bad) or "checker: no further complaint"),
+                        observed="key accepted", expected="ValueError")
+
     def run_construct(self, case, ctx):
         from Crypto.PublicKey import RSA, DSA, ECC, ElGamal
         fam = case["fam"]
@@ -414,6 +550,6 @@ class Machine(object):
             "assumptions": ["narrow claim: only the entropy-tape, storage-fault and single-component-fault routes are decided; "
                             "the input-space part (deny-list of low-order Montgomery points, every malformed tuple) is not claimed",
                             "primality in the checker: Miller-Rabin with 40 fixed bases"],
-            "expected_probes": ["damaged_key_accepted", "damaged_tuple_accepted", "close_prime_candidate_refused"],
+            "expected_probes": ["damaged_key_accepted", "damaged_tuple_accepted", "close_prime_candidate_refused", "toy_tuple_refused", "near_curve_point_refused"],
             "not_reached": ["ElGamal.generate in the quick tier (safe-prime search too slow)"],
         }
